@@ -200,3 +200,277 @@ Proof.
   - cbn. frb.
   - cbn. frb.
 Qed.
+
+(* ---- C: refresh rounds ---- *)
+Definition cur_t (p : option sphase) : list N :=
+  match p with
+  | Some (PCheck (STemplate t)) | Some (PLock (STemplate t)) | Some (PInc (STemplate t))
+  | Some (PWrite (STemplate t) _) | Some (PUnlock (STemplate t) false) => [t]
+  | _ => []
+  end.
+Definition set_of (p : sphase) : setk :=
+  match p with PCheck s | PLock s | PInc s | PWrite s _ | PUnlock s _ => s end.
+Definition tmpl_phase (p : option sphase) : Prop :=
+  match p with Some q => exists t, set_of q = STemplate t | None => True end.
+
+Fixpoint chain (cur : list N) (rs : list round) : Prop :=
+  match rs with [] => True | r :: rest => incl (r_snap r) cur /\ chain (r_snap r) rest end.
+
+Definition invC' (h : shared) (r : rstate) : Prop :=
+  map m_set (filter (from 1) (wire h)) = map STemplate (flat_map r_sent (rounds h)) /\
+  Forall (fun rd => r_complete rd = true -> rev (r_sent rd) = r_snap rd) (rounds h) /\
+  (match r with
+   | RSend todo p => tmpl_phase p /\ exists rd rest, rounds h = rd :: rest /\ r_complete rd = false /\
+                                    r_snap rd = rev (r_sent rd) ++ cur_t p ++ todo
+   | _ => True
+   end) /\
+  chain (templates h) (rounds h).
+Definition invC (x : xstate) : Prop := invC' (sh x) (refr x).
+
+Lemma chain_incl : forall rs cur cur', chain cur rs -> incl cur cur' -> chain cur' rs.
+Proof. intros [|r rs] cur cur' H I; cbn in *; auto. destruct H; split; auto. eapply incl_tran; eauto. Qed.
+
+Lemma frameC : forall h h' r, invC' h r ->
+  filter (from 1) (wire h') = filter (from 1) (wire h) -> rounds h' = rounds h -> incl (templates h) (templates h') -> invC' h' r.
+Proof.
+  intros h h' r (C1 & C2 & C3 & C4) W R T. unfold invC' in *. rewrite W, R.
+  split; [exact C1|]. split; [exact C2|]. split; [exact C3|]. eapply chain_incl; eauto.
+Qed.
+Lemma frameC_w : forall h h' r, invC' h r ->
+  wire h' = wire h -> rounds h' = rounds h -> templates h' = templates h -> invC' h' r.
+Proof. intros. eapply frameC; eauto; [congruence | rewrite H2; apply incl_refl]. Qed.
+
+Lemma sendC_app : forall h p r h' rr, invC' h r -> send_step 0 h p = (h', rr) -> invC' h' r.
+Proof.
+  intros h p r h' rr I E. eapply frameC; [exact I|..];
+  destruct p as [[tid|tid n]|s|s|s hdr|s ok]; cbn in E;
+    try (destruct (memN _ (templates h))); try (destruct (send_lock h)); try (destruct (closed h) eqn:EC; cbn in E);
+    inversion E; subst; cbn; auto; try apply incl_refl; try (apply incl_appl, incl_refl).
+Qed.
+
+Lemma sendC_ref : forall h p td h' rr, invC' h (RSend td (Some p)) -> send_step 1 h p = (h', rr) ->
+  invC' h' (match rr with SCont p' => RSend td (Some p') | SDone true => RSend td None | SDone false => RClose CSwap | SBlocked => RSend td (Some p) end).
+Proof.
+  intros h p td h' rr (C1 & C2 & (TP & rd & rest & ER & EC & ES) & C4) E. unfold invC' in *.
+  destruct TP as (t & ET).
+  destruct p as [s|s|s|s hdr|s ok]; cbn in ET; subst s; cbn in E.
+  - destruct (memN t (templates h)); inversion E; subst; cbn in *; repeat split; eauto 10.
+    eapply chain_incl; eauto. apply incl_appl, incl_refl.
+  - destruct (send_lock h); inversion E; subst; cbn in *; repeat split; eauto 10.
+  - inversion E; subst; cbn in *; repeat split; eauto 10.
+  - rewrite ER in E. destruct (closed h) eqn:ECl; cbn in E; inversion E; subst; cbn in *.
+    + repeat split; eauto 10.
+    + rewrite ER in *. cbn in *. repeat split; eauto.
+      * congruence.
+      * inversion C2; subst. constructor; auto. cbn. intros X. congruence.
+      * exists (MkRound (r_snap rd) (t :: r_sent rd) (r_complete rd)), rest. cbn. repeat split; auto.
+        rewrite ES. rewrite <- app_assoc. reflexivity.
+      * apply C4.
+      * apply C4.
+  - destruct ok; inversion E; subst; cbn in *; repeat split; eauto 10.
+Qed.
+
+Ltac frc := eapply frameC_w; [eassumption | cbn; congruence | cbn; congruence | cbn; congruence].
+
+Lemma invC_step : forall x a, invC x -> invC (xstep x a).
+Proof.
+  intros [h todo aph r k cl] a I. unfold invC in *; cbn in I.
+  destruct a as [t choice| | |]; [destruct t as [|[|[|t]]]|..]; cbn [xstep].
+  - unfold step_app; cbn [a_ph a_todo sh refr chk closers]. destruct aph as [|p|c].
+    + destruct todo as [|[s|] todo]; cbn; auto.
+    + destruct (send_step 0 h p) as [h' rr] eqn:E. pose proof (sendC_app _ _ _ _ _ I E) as J. destruct rr; cbn in *; auto.
+    + destruct (close_step 0 true h c) as [h' rr] eqn:E. close_case E. destruct rr; cbn; auto; frc.
+  - unfold step_refr; cbn [a_ph a_todo sh refr chk closers]. destruct r as [| |td [p|]|c|].
+    + destruct I as (C1 & C2 & _ & C4).
+      destruct (stop_closed h), (tick_r h); try destruct choice; unfold invC'; cbn; auto.
+    + destruct I as (C1 & C2 & _ & C4). unfold invC'; cbn. repeat split; auto.
+      * constructor; auto. cbn. discriminate.
+      * exists (MkRound (templates h) [] false), (rounds h). cbn. auto.
+      * apply incl_refl.
+    + destruct (send_step 1 h p) as [h' rr] eqn:E. pose proof (sendC_ref _ _ _ _ _ I E) as J.
+      destruct rr as [p'|[|]|]; destruct td; cbn in *; auto.
+    + destruct I as (C1 & C2 & (_ & rd & rest & ER & EC & ES) & C4). destruct td as [|t td]; cbn.
+      * rewrite ER. unfold invC'; cbn. rewrite ER in *. cbn in *. repeat split; auto.
+        -- inversion C2; subst. constructor; auto. cbn. intros _. rewrite ES. rewrite app_nil_r. reflexivity.
+        -- apply C4.
+        -- apply C4.
+      * unfold invC'; cbn. repeat split; eauto 10.
+    + destruct I as (C1 & C2 & _ & C4).
+      destruct (close_step 1 false h c) as [h' rr] eqn:E. close_case E.
+      assert (invC' h' RDone) as J by (unfold invC'; rewrite F1, F6, F4; auto).
+      destruct rr; cbn; auto; unfold invC' in *; cbn; tauto.
+    + cbn; auto.
+  - unfold step_chk; cbn [a_ph a_todo sh refr chk closers]. destruct k as [| |c|].
+    + destruct (stop_closed h), (tick_k h); try destruct choice; cbn; auto; frc.
+    + destruct (peer_closed h); cbn; auto; frc.
+    + destruct (close_step 2 false h c) as [h' rr] eqn:E. close_case E. destruct rr; cbn; auto; frc.
+    + cbn; auto.
+  - unfold step_closer; cbn [a_ph a_todo sh refr chk closers]. destruct (cl (S (S (S t)))) as [n [c|]].
+    + destruct (close_step (S (S (S t))) true h c) as [h' rr] eqn:E. close_case E. destruct rr; destruct n; cbn; auto; frc.
+    + destruct n; cbn; auto.
+  - cbn. frc.
+  - cbn. frc.
+  - cbn. frc.
+Qed.
+
+(* ---- D: closing happens once, whoever calls it and however often ---- *)
+Definition cph_of (x : xstate) (t : nat) : option cphase :=
+  match t with
+  | 0 => match a_ph x with AClosing c => Some c | _ => None end
+  | 1 => match refr x with RClose c => Some c | _ => None end
+  | 2 => match chk x with KClose c => Some c | _ => None end
+  | _ => snd (closers x t)
+  end.
+Definition cnorm (c : option cphase) : nat := match c with Some CStop => 1 | Some CConn => 2 | _ => 0 end.
+
+Definition invD' (h : shared) (ph : nat -> nat) : Prop :=
+  panicked h = false /\
+  (is_closed h = false -> winner h = None /\ n_stop h = 0 /\ n_conn h = 0 /\ closed h = false /\ stop_closed h = false) /\
+  (is_closed h = true -> exists w, winner h = Some w /\
+      match ph w with
+      | 1 => n_stop h = 0 /\ n_conn h = 0 /\ stop_closed h = false /\ closed h = false
+      | 2 => n_stop h = 1 /\ n_conn h = 0 /\ stop_closed h = true /\ closed h = false
+      | _ => n_stop h = 1 /\ n_conn h = 1 /\ stop_closed h = true /\ closed h = true
+      end) /\
+  (forall t, ph t <> 0 -> winner h = Some t).
+Definition invD (x : xstate) : Prop := invD' (sh x) (fun t => cnorm (cph_of x t)).
+
+Definition same_close (h h' : shared) : Prop :=
+  panicked h' = panicked h /\ is_closed h' = is_closed h /\ winner h' = winner h /\ n_stop h' = n_stop h /\
+  n_conn h' = n_conn h /\ closed h' = closed h /\ stop_closed h' = stop_closed h.
+
+Lemma frameD : forall h h' ph ph', invD' h ph -> same_close h h' -> (forall t, ph' t = ph t) -> invD' h' ph'.
+Proof.
+  intros h h' ph ph' (D1 & D2 & D3 & D4) (S1 & S2 & S3 & S4 & S5 & S6 & S7) P. unfold invD'.
+  rewrite S1, S2, S3, S4, S5, S6, S7. repeat split; auto; try (apply D2; auto).
+  - intros Hc. destruct (D3 Hc) as (w & Hw & M). exists w. rewrite P. auto.
+  - intros t Ht. rewrite P in Ht. auto.
+Qed.
+
+Lemma same_close_refl : forall h, same_close h h.
+Proof. intros. unfold same_close. tauto. Qed.
+Lemma same_close_wg : forall h, same_close h (wg_done h).
+Proof. intros. unfold same_close. cbn. tauto. Qed.
+Lemma same_close_trans : forall a b c, same_close a b -> same_close b c -> same_close a c.
+Proof. unfold same_close. intros a b c (A1&A2&A3&A4&A5&A6&A7) (B1&B2&B3&B4&B5&B6&B7). repeat split; congruence. Qed.
+
+Lemma log_result_close : forall me h s r, same_close h (log_result me h s r).
+Proof.
+  intros [|me] h s r; unfold log_result, same_close; [cbn; tauto|].
+  destruct r, s, (rounds h); cbn; tauto.
+Qed.
+
+Lemma send_step_close : forall me h p h' r, send_step me h p = (h', r) -> same_close h h'.
+Proof.
+  intros me h p h' r E.
+  destruct p as [[tid|tid n]|s|s|s hdr|s ok]; cbn in E;
+    try (destruct (memN _ (templates h))); try (destruct (send_lock h)); try (destruct (closed h));
+    inversion E; subst; try apply log_result_close; try apply same_close_refl;
+    try (eapply same_close_trans; [|apply log_result_close]); unfold same_close; cbn; tauto.
+Qed.
+
+Lemma closeD : forall h ph ph' me wait c h' rr, invD' h ph -> ph me = cnorm (Some c) ->
+  close_step me wait h c = (h', rr) ->
+  (forall t, t <> me -> ph' t = ph t) ->
+  ph' me = cnorm (match rr with CCont c' => Some c' | CReturned => None | CBlocked => Some c end) ->
+  invD' h' ph'.
+Proof.
+  intros h ph ph' me wait c h' rr (D1 & D2 & D3 & D4) Pme E Po Pn. unfold invD' in *.
+  assert (forall t, ph' t <> 0 -> t <> me -> winner h = Some t) as D4' by (intros t A B; apply D4; rewrite <- Po; auto).
+  destruct c; cbn in E, Pme.
+  - (* swap *)
+    destruct (is_closed h) eqn:EI.
+    + assert (h' = h /\ ph' me = 0) as (-> & Z) by (destruct wait; inversion E; subst; cbn in Pn; auto).
+      rewrite EI. repeat split; auto; try discriminate.
+      * intros _. destruct (D3 eq_refl) as (w & Hw & M). exists w. split; auto.
+        destruct (Nat.eq_dec w me) as [->|Hne]; [rewrite Z; rewrite Pme in M; exact M | rewrite Po; auto].
+      * intros t Ht. destruct (Nat.eq_dec t me) as [->|Hne]; [congruence | auto].
+    + inversion E; subst. cbn in *. destruct (D2 eq_refl) as (W & N1 & N2 & Cl & St).
+      repeat split; auto; try discriminate.
+      * intros _. exists me. rewrite Pn. auto.
+      * intros t Ht. destruct (Nat.eq_dec t me) as [->|Hne]; [reflexivity|]. rewrite (D4' t Ht Hne) in W. discriminate.
+  - (* close(stopCh) *)
+    assert (winner h = Some me) as W by (apply D4; rewrite Pme; discriminate).
+    destruct (is_closed h) eqn:EI; [|destruct (D2 eq_refl) as (W' & _); congruence].
+    destruct (D3 eq_refl) as (w & Hw & M). assert (w = me) by congruence. subst w. rewrite Pme in M.
+    destruct M as (N1 & N2 & St & Cl). inversion E; subst. cbn in *. rewrite EI, D1, St.
+    repeat split; auto; try discriminate.
+    + intros _. exists me. rewrite Pn. repeat split; auto; try (rewrite N1; reflexivity); try congruence.
+    + intros t Ht. destruct (Nat.eq_dec t me) as [->|Hne]; auto.
+  - (* conn.Close *)
+    assert (winner h = Some me) as W by (apply D4; rewrite Pme; discriminate).
+    destruct (is_closed h) eqn:EI; [|destruct (D2 eq_refl) as (W' & _); congruence].
+    destruct (D3 eq_refl) as (w & Hw & M). assert (w = me) by congruence. subst w. rewrite Pme in M.
+    destruct M as (N1 & N2 & St & Cl).
+    assert (h' = upd_closed h true /\ ph' me = 0) as (-> & Z) by (destruct wait; inversion E; subst; cbn in Pn; auto).
+    cbn in *. rewrite EI. repeat split; auto; try discriminate.
+    + intros _. exists me. rewrite Z. repeat split; auto; try (rewrite N2; reflexivity); try congruence.
+    + intros t Ht. destruct (Nat.eq_dec t me) as [->|Hne]; [congruence | auto].
+  - (* wg.Wait *)
+    assert (h' = h /\ ph' me = 0) as (-> & Z) by (destruct (wg h); inversion E; subst; cbn in Pn; auto).
+    split; [exact D1|]. split; [exact D2|]. split.
+    + intros Hc. destruct (D3 Hc) as (w & Hw & M). exists w. split; auto.
+      destruct (Nat.eq_dec w me) as [->|Hne]; [rewrite Z; rewrite Pme in M; exact M | rewrite Po; auto].
+    + intros t Ht. destruct (Nat.eq_dec t me) as [->|Hne]; [congruence | auto].
+Qed.
+
+Lemma upd_closer_same : forall f t v, upd_closer f t v t = v.
+Proof. intros. unfold upd_closer. rewrite Nat.eqb_refl. reflexivity. Qed.
+Lemma upd_closer_other : forall f t v u, u <> t -> upd_closer f t v u = f u.
+Proof. intros. unfold upd_closer. destruct (Nat.eqb_spec u t); [contradiction|reflexivity]. Qed.
+
+Ltac others := let t := fresh "t" in let H := fresh "H" in
+  intros t H; destruct t as [|[|[|t]]]; cbn; try reflexivity; try congruence.
+
+Ltac frd := eapply frameD; [eassumption | unfold same_close; cbn; tauto | others].
+
+Lemma invD_step : forall x a, invD x -> invD (xstep x a).
+Proof.
+  intros [h todo aph r k cl] a I. unfold invD in *; cbn [sh] in I.
+  destruct a as [t choice| | |]; [destruct t as [|[|[|t]]]|..]; cbn [xstep].
+  - unfold step_app; cbn [a_ph a_todo sh refr chk closers]. destruct aph as [|p|c].
+    + destruct todo as [|[s|] todo]; cbn [sh]; auto; (eapply frameD; [exact I | apply same_close_refl | intros [|[|[|t]]]; reflexivity]).
+    + destruct (send_step 0 h p) as [h' rr] eqn:E. pose proof (send_step_close _ _ _ _ _ E) as J.
+      destruct rr; cbn [sh]; auto; (eapply frameD; [exact I | exact J | intros [|[|[|t]]]; reflexivity]).
+    + destruct (close_step 0 true h c) as [h' rr] eqn:E.
+      destruct rr; cbn [sh]; auto; (eapply closeD with (me := 0); [exact I | reflexivity | exact E | others | reflexivity]).
+  - unfold step_refr; cbn [a_ph a_todo sh refr chk closers]. destruct r as [| |td [p|]|c|].
+    + destruct (stop_closed h), (tick_r h); try destruct choice; cbn [sh]; auto;
+        (eapply frameD; [exact I | unfold same_close; cbn; tauto | intros [|[|[|t]]]; reflexivity]).
+    + cbn [sh]. eapply frameD; [exact I | unfold same_close; cbn; tauto | intros [|[|[|t]]]; reflexivity].
+    + destruct (send_step 1 h p) as [h' rr] eqn:E. pose proof (send_step_close _ _ _ _ _ E) as J.
+      destruct rr as [p'|[|]|]; destruct td; cbn [sh]; auto; (eapply frameD; [exact I | exact J | intros [|[|[|t]]]; reflexivity]).
+    + destruct td as [|t td]; cbn [sh]; [destruct (rounds h)|];
+        (eapply frameD; [exact I | unfold same_close; cbn; tauto | intros [|[|[|u]]]; reflexivity]).
+    + destruct (close_step 1 false h c) as [h' rr] eqn:E.
+      destruct rr; cbn [sh]; auto.
+      * eapply closeD with (me := 1); [exact I | reflexivity | exact E | others | reflexivity].
+      * eapply frameD with (h := h') (ph := fun t => cnorm (cph_of (MkX h' todo aph RDone k cl) t));
+          [ eapply closeD with (me := 1); [exact I | reflexivity | exact E | others | reflexivity] | apply same_close_wg | intros [|[|[|t]]]; reflexivity].
+    + exact I.
+  - unfold step_chk; cbn [a_ph a_todo sh refr chk closers]. destruct k as [| |c|].
+    + destruct (stop_closed h), (tick_k h); try destruct choice; cbn [sh]; auto;
+        (eapply frameD; [exact I | unfold same_close; cbn; tauto | intros [|[|[|t]]]; reflexivity]).
+    + destruct (peer_closed h); cbn [sh]; (eapply frameD; [exact I | unfold same_close; cbn; tauto | intros [|[|[|t]]]; reflexivity]).
+    + destruct (close_step 2 false h c) as [h' rr] eqn:E.
+      destruct rr; cbn [sh]; auto.
+      * eapply closeD with (me := 2); [exact I | reflexivity | exact E | others | reflexivity].
+      * eapply frameD with (h := h') (ph := fun t => cnorm (cph_of (MkX h' todo aph r KDone cl) t));
+          [ eapply closeD with (me := 2); [exact I | reflexivity | exact E | others | reflexivity] | apply same_close_wg | intros [|[|[|t]]]; reflexivity].
+    + exact I.
+  - unfold step_closer; cbn [a_ph a_todo sh refr chk closers]. destruct (cl (S (S (S t)))) as [n [c|]] eqn:ECl.
+    + destruct (close_step (S (S (S t))) true h c) as [h' rr] eqn:E.
+      destruct rr; destruct n; cbn [sh]; auto;
+        (eapply closeD with (me := S (S (S t))); [exact I | cbn; rewrite ECl; reflexivity | exact E
+          | intros u Hu; destruct u as [|[|[|u]]]; cbn; try reflexivity; rewrite upd_closer_other by auto; reflexivity
+          | cbn; rewrite upd_closer_same; reflexivity]).
+    + destruct n; cbn [sh]; auto.
+      eapply frameD; [exact I | apply same_close_refl |].
+      intros [|[|[|u]]]; cbn; try reflexivity.
+      destruct (Nat.eq_dec (S (S (S u))) (S (S (S t)))) as [Eq|Ne].
+      * rewrite Eq, upd_closer_same, ECl. reflexivity.
+      * rewrite upd_closer_other by auto. reflexivity.
+  - cbn [with_sh sh]. eapply frameD; [exact I | unfold same_close; cbn; tauto | intros [|[|[|t]]]; reflexivity].
+  - cbn [with_sh sh]. eapply frameD; [exact I | unfold same_close; cbn; tauto | intros [|[|[|t]]]; reflexivity].
+  - cbn [with_sh sh]. eapply frameD; [exact I | unfold same_close; cbn; tauto | intros [|[|[|t]]]; reflexivity].
+Qed.
